@@ -19,7 +19,8 @@ def ringTri (n i : Nat) : List Nat := if i = n then [0, n, 1] else [0, i, i + 1]
 /-- the faces of the translated loop nest are exactly the addressed triangles (their number is `ring_nfaces`) -/
 theorem ringFaces_mem (N c : Nat) (h : 1 ≤ N * c) (f : List Nat) :
     f ∈ ringFaces N c false ↔ ∃ i, 1 ≤ i ∧ i ≤ N * c ∧ f = ringTri (N * c) i := by
-  simp only [ringFaces, ringTri, Bool.false_eq_true, if_false, List.mem_append, List.mem_flatMap, List.mem_range'_1,
+  rw [ringFaces_norm]
+  simp only [ringFacesCanon, ringTri, Bool.false_eq_true, if_false, List.mem_append, List.mem_flatMap, List.mem_range'_1,
     List.mem_cons, List.mem_nil_iff, or_false]
   constructor
   · rintro (⟨i, hi, rfl⟩ | rfl)
@@ -84,7 +85,8 @@ theorem ring_border (n : Nat) (hn : 3 ≤ n) (i : Nat) (hi : 1 ≤ i ∧ i ≤ n
 def fanTri (i : Nat) : List Nat := [0, i + 1, i + 2]
 
 theorem flat_ringFaces_eq (N c : Nat) : flat_ringFaces N c = (List.range (N * c)).flatMap (fun i => [fanTri i]) := by
-  simp [flat_ringFaces, fanTri]
+  rw [flat_ringFaces_norm]
+  simp [flat_ringFacesCanon, fanTri]
 
 theorem flat_ring_oriented (i j : Nat) (e : Nat × Nat) (h1 : e ∈ sides (fanTri i)) (h2 : e ∈ sides (fanTri j)) : i = j := by
   obtain ⟨p, q⟩ := e
